@@ -643,7 +643,20 @@ class LSym:
                 self.regions[p.r].freed = True
             return None
         if "__rust_no_alloc_shim_is_unstable" in name: return None
+        if name in ("memcmp", "bcmp"):
+            n = self.P(args[2])
+            if not n.is_const(): raise Unsupported("memcmp of symbolic length")
+            xs = [self.P(self.load(Ptr(args[0].r, args[0].o + k), 1)) for k in range(n.cval())]
+            ys = [self.P(self.load(Ptr(args[1].r, args[1].o + k), 1)) for k in range(n.cval())]
+            diffs = [self.ctx.resolve(x - y) for x, y in zip(xs, ys)]
+            for d in diffs:
+                if d.is_zero(): continue
+                if d.is_const(): return Poly.const(1 if d.cval() > 0 else (1 << 32) - 1)
+                return self.symbolic_memcmp(xs, ys, diffs)
+            return ZERO
         raise Unsupported("call to external function " + name)
+    def symbolic_memcmp(self, xs, ys, diffs):
+        raise Unsupported("memcmp of symbolic bytes")
     def on_dealloc(self, p, args): pass
 
     def intrinsic(self, name, a):
